@@ -137,7 +137,7 @@ func waitDone(f *interpreter.Future) bool {
 	select {
 	case <-f.Done():
 		return true
-	case <-time.After(wait):
+	case <-time.After(evid.Stretch(wait)):
 		return false
 	}
 }
@@ -424,7 +424,7 @@ func run(c Case) evid.Outcome {
 		}
 	}
 	// combinator helper goroutines end
-	deadline := time.Now().Add(3 * time.Second)
+	deadline := time.Now().Add(evid.Stretch(3 * time.Second))
 	for runtime.NumGoroutine() > before+1 && time.Now().Before(deadline) {
 		time.Sleep(time.Millisecond)
 	}
